@@ -5,6 +5,7 @@ import XmppModel.Lemmas.Muc
 import XmppModel.Model.IbbReader
 import XmppModel.Model.IbbClose
 import XmppModel.Generated.C06
+import XmppModel.Lemmas.CorrAttrs
 /-!
 # C06 — every correlated wait ends exactly once with its own reply or its context error
 
@@ -500,5 +501,54 @@ theorem C06_ibb_close_ends_read :
   decide
 
 end Helpers
+
+/-! ### Round C: which attributes are the stanza's id and type (`getIDTyp`) -/
+namespace Attrs
+open XmppModel.CorrAttrs
+
+/-- only unqualified attributes count: removing every attribute that lives in a namespace (or is
+a namespace declaration) changes nothing -/
+theorem C06_idtyp_ignores_qualified (as : List Attr) :
+    getIDTyp as = getIDTyp (as.filter fun a => a.space = .none) := scan_filter as none none
+
+/-- the stanza's own id and type are found whatever qualified attributes stand in front of them
+and whatever follows -/
+theorem C06_idtyp_own_attributes (pre post : List Attr) (id ty : Nat) (h : ∀ a ∈ pre, a.space ≠ .none) :
+    getIDTyp (pre ++ [⟨.none, .id, id⟩, ⟨.none, .type, ty⟩] ++ post) = (some id, some ty) := by
+  unfold getIDTyp
+  rw [List.append_assoc, scan_qualified_prefix _ _ _ _ h]
+  simp [scan]
+
+/-- a stanza without unqualified id / type has none, whatever `x:id`, `xmlns:type` … it carries -/
+theorem C06_idtyp_only_qualified (as : List Attr) (h : ∀ a ∈ as, a.space ≠ .none) :
+    getIDTyp as = (none, none) := by
+  have := scan_qualified_prefix as [] none none h
+  simpa [getIDTyp, scan] using this
+
+/-- a response to somebody else is never correlated with a pending request because of a foreign
+attribute that carries the pending id: the lookup sees the stanza's own id only -/
+theorem C06_decoy_never_correlates (cfg : Cfg) (s : St) (kind : Kind) (ns : Ns) (bad : Bool)
+    (pre post : List Attr) (id ty : Nat) (h : ∀ a ∈ pre, a.space ≠ .none) (hn : s.table id = none) :
+    ∀ i, (getIDTyp (pre ++ [⟨.none, .id, id⟩, ⟨.none, .type, ty⟩] ++ post)).1 = some i →
+      lookup cfg s ⟨kind, i, isResponse (getIDTyp (pre ++ [⟨.none, .id, id⟩, ⟨.none, .type, ty⟩] ++ post)).2, ns, bad⟩ = none := by
+  intro i hi
+  rw [C06_idtyp_own_attributes pre post id ty h] at hi ⊢
+  simp at hi; subst hi
+  simp [lookup, hn]
+
+/-- a get / set that carries a foreign `type="result"` stays a request: it never consults the table -/
+theorem C06_decoy_type_is_no_response (cfg : Cfg) (s : St) (kind : Kind) (ns : Ns) (bad : Bool)
+    (pre post : List Attr) (id ty : Nat) (h : ∀ a ∈ pre, a.space ≠ .none) (ht : 2 ≤ ty) :
+    lookup cfg s ⟨kind, id, isResponse (getIDTyp (pre ++ [⟨.none, .id, id⟩, ⟨.none, .type, ty⟩] ++ post)).2, ns, bad⟩ = none := by
+  rw [C06_idtyp_own_attributes pre post id ty h]
+  have : isResponse (some ty) = false := by
+    simp [isResponse]; omega
+  simp [lookup, this]
+
+-- non-vacuity: `<iq x:id="q0" xmlns:type="result" id="q7" type="get" x:id="q0">`
+example : getIDTyp [⟨.foreign, .id, 0⟩, ⟨.xmlns, .type, 0⟩, ⟨.none, .id, 7⟩, ⟨.none, .type, 2⟩, ⟨.foreign, .id, 0⟩]
+    = (some 7, some 2) := by decide
+
+end Attrs
 
 end XmppModel.Props.C06
